@@ -67,7 +67,8 @@ Innermost == << Probe,
 TopMacro == [t |-> "macro", name |-> "top", params |-> <<>>, body |-> Probe, export |-> FALSE]
 
 \* API family: context keys that are not identifiers, keys clashing with an exported macro, globals overridden by the context
-ApiCtxs == << [a |-> S(<<"p">>)], [mx |-> I(1)], ("bad-key" :> I(1)), ("sp ace" :> I(1)) @@ [a |-> I(2)], ("x.y" :> I(3)), [g |-> S(<<"o">>)], <<>> >>
+ApiCtxs == << [a |-> S(<<"p">>)], [mx |-> I(1)], ("bad-key" :> I(1)), ("sp ace" :> I(1)) @@ [a |-> I(2)], ("x.y" :> I(3)), [g |-> S(<<"o">>)], <<>>,
+             ("" :> I(4)), ("" :> I(4)) @@ [a |-> I(2)] >>          \* (the empty name is no identifier either)
 ApiGlobals == << [g |-> S(<<"G">>)], <<>>, [mx |-> I(2)], [a |-> S(<<"ga">>), g |-> S(<<"G">>)] >>
 ApiProgs == << Probe,
                <<[t |-> "macro", name |-> "mx", params |-> <<>>, body |-> <<T(<<"m">>)>>, export |-> TRUE]>> \o Probe,
